@@ -159,7 +159,7 @@ def check(run):
     _r10(run, mods)
     _r11(run, mods)
     from ..cachekey import check_caches
-    check_caches(run, list(mods.values()) + [prog.modules['cherab.openadas.install']], 'C06-K')
+    check_caches(run, list(mods.values()) + [prog.modules['cherab.openadas.install']], 'C06-K', prog=prog)
 
 
 def _where(fm, role, node=None):
